@@ -33,6 +33,9 @@ func genConf(r *rand.Rand) conf {
 		ivNever:      r.Intn(100) < 70,
 		refreshNever: r.Intn(2) == 0,
 	}
+	if r.Intn(3) == 0 {
+		c.neverKind = 1 + r.Intn(4)
+	}
 	return c
 }
 
